@@ -1,8 +1,10 @@
 package colvet
 
 import (
+	"go/constant"
 	"go/token"
 	"go/types"
+	"strings"
 	"unicode"
 
 	"golang.org/x/tools/go/ssa"
@@ -808,4 +810,47 @@ func condLeaves(cond ssa.Value) []ssa.Value {
 	}
 	walk(cond, 0)
 	return out
+}
+
+// feasibleWithConsts: the instruction (found inside a helper entered with environment env) can
+// execute given the constants the helper was handed: every equality test of the helper between two
+// values that normalise to constants under env is decided, and the instruction's block is reachable
+// under those decisions (writeNumber(acc, commit.Put, v): only the Set arm).
+func feasibleWithConsts(ins ssa.Instruction, env *venv) bool {
+	f := ins.Parent()
+	if f == nil || ins.Block() == nil {
+		return true
+	}
+	reach := reachableUnder(f, func(v ssa.Value) (bool, bool) {
+		bo, ok := v.(*ssa.BinOp)
+		if !ok || (bo.Op != token.EQL && bo.Op != token.NEQ) {
+			return false, false
+		}
+		x, _ := normE(bo.X, env, false)
+		y, _ := normE(bo.Y, env, false)
+		cx, okx := x.(*ssa.Const)
+		cy, oky := y.(*ssa.Const)
+		if !okx || !oky || cx.Value == nil || cy.Value == nil {
+			return false, false
+		}
+		eq := constant.Compare(cx.Value, token.EQL, cy.Value)
+		return eq == (bo.Op == token.EQL), true
+	})
+	return reach[ins.Block()]
+}
+
+// accessorMethodCall: the call is method `name` of one of the library's read-write accessors (rw*),
+// called statically or — inside a generic helper — through a type parameter.
+func accessorMethodCall(cc *ssa.CallCommon, name string) bool {
+	if sc := cc.StaticCallee(); sc != nil && sc.Name() == name {
+		if rn := recvNamed(sc); rn != nil && strings.HasPrefix(rn.Obj().Name(), "rw") {
+			return true
+		}
+	}
+	if cc.IsInvoke() && cc.Method != nil && cc.Method.Name() == name {
+		if _, isTP := cc.Value.Type().(*types.TypeParam); isTP {
+			return true
+		}
+	}
+	return false
 }
